@@ -159,7 +159,7 @@ func execC05(seg []Ev) []Ev {
 
 var c05pool = map[string][]string{
 	"generic":            {"<=", "<>", ">=", "<", "a<=b<>c>=d", "abc", "12.5", "-", "'q'", "'open", "# c", " ", "", "a.b-c", "Ж", "😀"},
-	"expression":         {"<=", "<>", "<<", ">=", ">>", "!=", "<", ">", "!", "a<=b<>c<<d>=e>>f!=g", "abc", "1.5e3", "'q''r'", "\"w\"", "'open", "/* c */", "/* open", "/", " ", "", "NOT x"},
+	"expression":         {"<=", "<>", "<<", ">=", ">>", "!=", "<", ">", "!", "a<=b<>c<<d>=e>>f!=g", "abc", "1.5e3", "'q''r'", "\"w\"", "'open", "/* c */", "/* open", "/", " ", "", "NOT x", "7e+x", "3E-", "1e", "2e3", "2e2 + 1", "1.e", "5e-2"},
 	"csv":                {"\r\n", "\n\r", "\r", "\n", "a,b\r\nc\n\rd", "\"q\"\"r\"", "\"open", ",", "", "a"},
 	"generic-custom":     {"=:=", "=:", "=", "<!--", "<!-", "<!", "!>>>", "!>>", "a=:=b<!--c", "=:=:<!-!>>", "", "x"},
 	"generic-arrows":     {"страна", "a → b", "→", "x→y", "日本　語", "ab", "", "→→ж", "'→'", "ж"},
